@@ -413,6 +413,29 @@ def nesting3_programs(tier):
     return progs
 
 
+HOSTILE = "#[allow(dead_code)] mod std {} #[allow(dead_code)] mod core {} #[allow(dead_code)] mod alloc {} #[allow(dead_code)] mod tokio {} #[allow(dead_code)] mod futures {} "
+
+
+def hostile_scope_programs():
+    """every macro invoked in a scope that has its own items called `std`, `core`, `alloc`, `tokio`, `futures` (a facade module as
+    no_std-compatible crates have): the expansion names its runtime items by absolute paths, so its meaning does not depend on what
+    the caller's scope calls `std`. Two-branch two-step programs with a handler, and 2 x 2 dense capture programs."""
+    progs = []
+    for mac in ALL_MACROS:
+        for kind, p in (("outer", outer_program(mac, None, None, None)), ("dense", dense(mac, 2, 2))):
+            d = dsl.program_dsl(p)
+            r = dsl.program_ref(p)
+            fm = '\nformat!("{:?}", x)'
+            if mac in dsl.ASYNC:
+                rb, mb = "let x = bo(%s);%s" % (r, fm), "let x = bo({ %s%s });%s" % (HOSTILE, d, fm)
+            else:
+                rb, mb = "let x = %s;%s" % (r, fm), "let x = { %s%s };%s" % (HOSTILE, d, fm)
+            if mac in dsl.ASYNC and mac in dsl.SPAWN:
+                mb = "let __rt = trt_mt(); let __g = __rt.enter();\n" + mb
+            progs.append(Prog("hostile/%s/%s" % (mac, kind), rb, mb, [[0]], "Proj", meta={"macro": mac, "dsl": "{ %s%s }" % (HOSTILE, d), "ref": r}))
+    return progs
+
+
 NEST_HEADER = """use futures::future::ready;
 fn trt() -> tokio::runtime::Runtime { tokio::runtime::Builder::new_current_thread().build().unwrap() }
 fn trt_mt() -> tokio::runtime::Runtime { tokio::runtime::Builder::new_multi_thread().worker_threads(3).build().unwrap() }
